@@ -1197,7 +1197,7 @@ def run(ctx, replay=None):
         probe_broadcast(ctx)
         return
     correspondence(ctx)
-    search(ctx, ctx.scale(6000, 120000))
+    search(ctx, ctx.scale(5000, 120000))
     if ctx.disagreements:
         targeted(ctx)
     ctx.extra.pop("_shrunk", None)
